@@ -85,7 +85,8 @@ def _compile_many(paths, gen_dir, geneq_dir, logdir):
               'timeout %d coqc %s "$f" > "%s/$b.log" 2>&1; echo $? > "%s/$b.rc"'
               % (TIMEOUT, args, logdir, logdir))
     p = subprocess.run(["xargs", "-0", "-n", "1", "-P", str(JOBS), "sh", "-c", script, "sh"],
-                       input="\0".join(paths).encode(), stdout=subprocess.DEVNULL, stderr=subprocess.DEVNULL)
+                       input="\0".join(paths).encode(), stdout=subprocess.DEVNULL, stderr=subprocess.DEVNULL,
+                       cwd=gen_dir)
     del p
     out = {}
     for f in paths:
@@ -160,6 +161,16 @@ def _run(root, gen_dir, geneq_dir, force, t0):
     key = h.hexdigest()
 
     status_path = os.path.join(gen_dir, "status.json")
+    not_built = [d for d in MODEL_DEPS if not os.path.isfile(os.path.join(THEORIES, d[:-2] + ".vo"))]
+    if not_built:
+        # nothing can be checked against a model that is not compiled; this is a build problem, not a
+        # broken obligation
+        status = {"translated": [f["name"] for f in tr["functions"]],
+                  "unavailable": [{"name": u["name"], "reason": u["reason"]} for u in tr["unavailable"]],
+                  "obligations": 0, "discharged": 0, "failed": [], "changed": True,
+                  "wall_s": round(time.time() - t0, 3), "skipped": [], "gate": [],
+                  "error": "model not built: missing .vo for " + ", ".join(not_built)}
+        return status
     old = None
     try:
         old = json.loads(_read(status_path))
